@@ -1051,7 +1051,7 @@ def shrink(doc, still_fails, budget=150):
 # 6.4) — not from parser.py: it says which fault classes a document has, hence whether load_model must refuse it.
 def xexpr_xml(e):
     if e[0] == 'diffn':
-        return ('<apply><diff/><bvar><ci>%s</ci><degree><cn cellml:units="dimensionless">%d</cn></degree></bvar>'
+        return ('<apply><diff/><bvar><ci>%s</ci><degree><cn cellml:units="dimensionless">%s</cn></degree></bvar>'
                 '<ci>%s</ci></apply>' % (_esc(e[2]), e[3], _esc(e[1])))
     if e[0] == 'diffx':     # first derivative of an EXPRESSION (not of a variable): ['diffx', expr, t]
         return '<apply><diff/><bvar><ci>%s</ci></bvar>%s</apply>' % (_esc(e[2]), expr_xml(e[1]))
@@ -1458,7 +1458,7 @@ def fault_sites(doc):
             if c['variables']:
                 out += [('nonvar-lhs', [ci, at, k]) for k in ('sum', 'number', 'neg')]
             if len(c['variables']) >= 2:
-                out += [('higher-order-lhs', [ci, at, n]) for n in (2, 3)]
+                out += [('higher-order-lhs', [ci, at, n]) for n in (2, 3, '1.5', '0.5')]
                 out += [('nonvar-lhs', [ci, at, k]) for k in ('dsum', 'dscaled', 'dtwo')]
         for vi, v in enumerate(c['variables']):
             out.append(('undefined-unit', ['var', ci, vi]))
@@ -1473,7 +1473,7 @@ def fault_sites(doc):
     for where in ('first', 'middle', 'last'):
         out += [('units-offset', [where, o]) for o in ('273.15', '32', '-1', '0.5')]
         out += [('units-cycle', [where, n]) for n in (1, 2, 3)]
-        out += [('units-dangling', [where]), ('units-duplicate', [where, 'new']),
+        out += [('units-dangling', [where]), ('units-duplicate', [where, 'new']), ('units-duplicate', [where, 'newbase']),
                 ('units-builtin-override', [where, 'volt', 0]), ('units-builtin-override', [where, 'litre', 1]),
                 ('units-builtin-override', [where, 'second', 0])]
     for ui, u in enumerate(doc['units']):
@@ -1696,7 +1696,11 @@ def _inject_units(d, doc, kind, site, rng):
     elif kind == 'units-dangling':
         _add(d, 'units', {'name': used_name('dangling'), 'elems': [{'units': 'volt'}, {'units': 'nowhere_unit'}]}, where)
     elif kind == 'units-duplicate':
-        if site[1] == 'new':
+        if site[1] == 'newbase':        # the same NEW BASE unit declared twice
+            n = used_name('twicebase')
+            _add(d, 'units', {'name': n, 'base': True}, 'first')
+            _add(d, 'units', {'name': n, 'base': True}, where)
+        elif site[1] == 'new':
             n = used_name('twice')
             _add(d, 'units', {'name': n, 'elems': [{'units': 'volt', 'prefix': 'milli'}]}, 'first')
             _add(d, 'units', {'name': n, 'elems': [{'units': 'volt', 'prefix': 'milli'}]}, where)
